@@ -351,4 +351,72 @@ def r5_sniff_is_not_skipped(ctx):
     for o in ctx.obs[n0:]:
         o["rule"] = "R5"
 
-RULES = [("R1", r1_no_lossy), ("R2", r2_machine), ("R3", r3_bom), ("R4", r4_declaration), ("R5", r5_sniff_is_not_skipped)]
+def r6_sniff_before_leaving_init(ctx):
+    """The reader leaves state Init only after the sniff (detect_encoding / remove_utf8_bom) has completed: a state
+    written before the call survives an I/O error or a dropped future, and the next read starts in InsideText with
+    the byte-order mark still in the stream.  Also: the sniff is attempted on every path that leaves Init."""
+    import c03
+    for cfg, F in ctx.facts.items():
+        vs = F.variants("reader::ParseState")
+        n = 0
+        for b in c03.loop_bodies(F):
+            nm = sym.short(strip_generics(b.path).replace("::{closure#0}", ""))
+            seen = set()
+            for p in ctx.paths(b, max_paths=60000):
+                idx = [i for i, e in enumerate(p) if e[0] == "switch" and e[2][0] == "discr" and ends_with_fields(e[2][1], "state", "state")]
+                if not idx or not isinstance(p[idx[0]][3], int) or vs[p[idx[0]][3]] != "Init":
+                    continue
+                sniff = [i for i, e in enumerate(p) if e[0] == "call" and name_is(e[2], "detect_encoding", "remove_utf8_bom") and not isinstance(e[1], tuple)]
+                stores = [i for i, e in enumerate(p) if e[0] == "store" and ends_with_fields(e[2], "state", "state") and i > idx[0]]
+                if not stores:
+                    continue
+                first = stores[0]
+                key = (bool(sniff), bool(sniff) and sniff[0] < first)
+                if key in seen:
+                    continue
+                seen.add(key)
+                n += 1
+                ctx.ob("R6", "%s:Init:sniff-then-state" % nm, bool(sniff) and sniff[0] < first,
+                       "state Init is left (state written) only after the sniffing helper was called and returned; on this path the %s" % ("helper is not called" if not sniff else "state is written first"), config=cfg)
+        ctx.floor("R6", "paths leaving Init", n, 2 if "async-tokio" in F.features else 1, config=cfg)
+
+
+DECODING_CALLS = ("from_utf8", "encoding::decode", "encoding::decode_into", "decode_without_bom_handling_and_without_replacement", "decode_to_string_without_replacement",
+                  "decode_without_bom_handling", "Decoder::decode", "Decoder::decode_into")
+
+
+def r7_decodes_all_of_it(ctx, rule="R7"):
+    """What the reader's decoder is given is what it decodes: in Decoder::decode / decode_into and the free functions
+    behind them the bytes handed to the decoding call are the `bytes` parameter itself, not a part of it (a payload
+    that happens to begin with EF BB BF is text, U+FEFF, and not a mark to strip; marks are removed once, by the
+    sniffing helpers at the start of the document)."""
+    for cfg, F in ctx.facts.items():
+        n = 0
+        for b in F.bodies:
+            bp = strip_generics(b.path)
+            if not bp.startswith("quick_xml::encoding::") or bp.split("::")[-1] not in ("decode", "decode_into") or is_derive(b):
+                continue
+            pidx = b.argc - (1 if bp.split("::")[-1] == "decode_into" else 0) - (1 if "Decoder::" not in bp else 0)   # position of `bytes`
+            pidx = 2 if "Decoder::" in bp else 1
+            fn = sym.short(bp)
+            seen = set()
+            mine = 0
+            for p in ctx.paths(b):
+                for c in calls(p):
+                    if isinstance(c[1], tuple) or not isinstance(c[2], str) or not name_is(c[2], *DECODING_CALLS):
+                        continue
+                    key = (c[1], tuple(sym.show(a, 4) for a in c[3]))
+                    if key in seen:
+                        continue
+                    seen.add(key)
+                    mine += 1
+                    derived = [a for a in c[3] if has_subterm(a, lambda s2: s2[0] == "arg" and s2[1] == pidx)]
+                    exact = [a for a in derived if strip_wrappers(a)[0] == "arg" or (strip_wrappers(a)[0] == "pl" and strip_wrappers(a)[1][0] == "arg" and all(x == "*" for x in strip_wrappers(a)[2]))]
+                    n += 1
+                    ctx.ob(rule, "%s:%s:input" % (fn, sym.short(c[2]).split("::")[-1]), bool(derived) and len(exact) == len(derived),
+                           "the decoding call receives the `bytes` parameter as it is; it receives %s" % [sym.show(a, 3)[:80] for a in derived], config=cfg)
+            ctx.ob(rule, "%s:decodes" % fn, mine >= 1, "the function decodes through one of the strict, mark-preserving entry points (%d recognised call(s))" % mine, config=cfg)
+        ctx.floor(rule, "decoding calls in encoding::{decode, decode_into}", n, 2, config=cfg)
+
+
+RULES = [("R1", r1_no_lossy), ("R2", r2_machine), ("R3", r3_bom), ("R4", r4_declaration), ("R5", r5_sniff_is_not_skipped), ("R6", r6_sniff_before_leaving_init), ("R7", r7_decodes_all_of_it)]
